@@ -286,6 +286,12 @@ def extra(tier, rng, workdir):
                 label = p["hot"]
             elif it["site"]:
                 label = it["site"]
+            elif p and o[0] < 2 and p["alloc"] <= limit(n) // 4:
+                # the translated readers of this repository account for a small allocation only: the excess was
+                # allocated inside a dependency decoder the message reaches
+                deps = cl.dep_decoders(T[it["T"]]["r"]) if it["T"] in T else []
+                if len(deps) == 1:
+                    label = "dep:" + deps[0] + ":alloc"
             failures.append({"key0": site_key(it["T"], label), "what": "%s.Deserialize on %d hostile bytes: %s%s" % (
                 it["T"], n, CLASS_NAMES.get(o[0], o[0]), ", allocated %d bytes" % o[2] if len(o) > 2 and o[2] > 0 else ""),
                 "type": ri["T"], "input": ri["bs"].hex(), "observed": o, "child": ri.get("why"), "origin": it["origin"],
